@@ -144,4 +144,39 @@ f64: not modelled).
 def colOf (suppliedAsU64 : Bool) (vals : List Int) : ColT :=
   if !suppliedAsU64 || vals.all (fun v => decide (v < I64MAX)) then .i64 else .u64
 
+/-! ### f64 column
+
+A path that received a float (or both negative and > i64::MAX values) has an f64 column. Every
+bound is converted with `map_bound` (kind preserved): `(term as f64).to_u64()` for integer terms,
+`term.to_u64()` for f64 terms. `f64_to_u64` is strictly monotone (`C03_f64_to_u64_strictMono`), so
+only the order of the encoded values matters; the model uses the order-isomorphic stand-in
+`h ↦ h + 2^54` on half-units (values and bounds below 2^52 in magnitude convert exactly). -/
+
+/-- stand-in for `f64_to_u64 (h / 2)` -/
+def encF (h : Int) : Nat := (h + 2 ^ 54).toNat
+
+def coerceF : B → BndN
+  | .unb => .unb
+  | .incl b => .incl (encF b.twice)
+  | .excl b => .excl (encF b.twice)
+
+/-- f64 column, value `hv / 2` -/
+def implMatchF (lo hi : B) (hv : Int) : Bool := inRangeN (coerceF lo) (coerceF hi) (encF hv)
+
+def specMatchF (lo hi : B) (hv : Int) : Bool :=
+  (match lo with
+   | .incl b => decide (b.twice ≤ hv)
+   | .excl b => decide (b.twice < hv)
+   | .unb => true) &&
+  (match hi with
+   | .incl b => decide (hv ≤ b.twice)
+   | .excl b => decide (hv < b.twice)
+   | .unb => true)
+
+/-- every number involved converts to f64 exactly -/
+def B.small : B → Prop
+  | .incl b => -(2 ^ 53) < b.twice ∧ b.twice < 2 ^ 53
+  | .excl b => -(2 ^ 53) < b.twice ∧ b.twice < 2 ^ 53
+  | .unb => True
+
 end TantivyModel.JsonRange
